@@ -1013,7 +1013,7 @@ pub fn get_aggregate_value(
             None => String::from("0"), // If no items were found
         },
         Some(Function::Avg) => {
-            if raw_output_buffer.is_empty() {
+            if buffer_numbers(raw_output_buffer, &buffer_key).is_empty() {
                 return String::from("0");
             }
 
@@ -1021,23 +1021,25 @@ pub fn get_aggregate_value(
         }
         Some(Function::Sum) => get_buffer_sum(raw_output_buffer, &buffer_key).to_string(),
         Some(Function::Count) => raw_output_buffer.len().to_string(),
+        // the statistics are taken over the values that are numbers: a row without a value
+        // (an unreadable file, a directory) is no observation
         Some(Function::StdDevPop) => {
-            if raw_output_buffer.is_empty() {
+            let n = buffer_numbers(raw_output_buffer, &buffer_key).len();
+            if n == 0 {
                 return String::new();
             }
 
-            let n = raw_output_buffer.len();
             let variance = get_variance(raw_output_buffer, &buffer_key, n);
             let result = variance.sqrt();
 
             result.to_string()
         }
         Some(Function::StdDevSamp) => {
-            if raw_output_buffer.is_empty() {
+            let size = buffer_numbers(raw_output_buffer, &buffer_key).len();
+            if size == 0 {
                 return String::new();
             }
 
-            let size = raw_output_buffer.len();
             let n = if size == 1 { 1 } else { size - 1 };
             let variance = get_variance(raw_output_buffer, &buffer_key, n);
             let result = variance.sqrt();
@@ -1045,21 +1047,21 @@ pub fn get_aggregate_value(
             result.to_string()
         }
         Some(Function::VarPop) => {
-            if raw_output_buffer.is_empty() {
+            let n = buffer_numbers(raw_output_buffer, &buffer_key).len();
+            if n == 0 {
                 return String::new();
             }
 
-            let n = raw_output_buffer.len();
             let variance = get_variance(raw_output_buffer, &buffer_key, n);
 
             variance.to_string()
         }
         Some(Function::VarSamp) => {
-            if raw_output_buffer.is_empty() {
+            let size = buffer_numbers(raw_output_buffer, &buffer_key).len();
+            if size == 0 {
                 return String::new();
             }
 
-            let size = raw_output_buffer.len();
             let n = if size == 1 { 1 } else { size - 1 };
             let variance = get_variance(raw_output_buffer, &buffer_key, n);
 
@@ -1150,7 +1152,7 @@ fn get_variance(
 /// A value that is no number is ignored.
 fn get_mean(raw_output_buffer: &Vec<HashMap<String, String>>, buffer_key: &String) -> f64 {
     let sum = get_buffer_sum(raw_output_buffer, buffer_key);
-    let size = raw_output_buffer.len();
+    let size = buffer_numbers(raw_output_buffer, buffer_key).len();
 
     sum.as_f64() / size as f64
 }
